@@ -390,6 +390,26 @@ impl Check for Enforcement {
             })),
             "ug-assumption-with-non-input" => {
                 let p = if c.flag(1, 2) { output.clone() } else { task.names.right_private[0].0.clone() };
+                // other annotated formulas (roles a user guide ignores with a warning, or a harmless
+                // assumption) may stand before the offending one
+                for _ in 0..c.next(3) {
+                    let role = match c.next(4) {
+                        0 => fol::Role::Lemma,
+                        1 => fol::Role::Spec,
+                        2 => fol::Role::InductiveLemma,
+                        _ => fol::Role::Assumption,
+                    };
+                    task.user_guide.entries.push(fol::UserGuideEntry::AnnotatedFormula(gt::annotated(
+                        role,
+                        fol::Direction::Universal,
+                        "",
+                        closed(fol::Formula::BinaryFormula {
+                            connective: fol::BinaryConnective::Implication,
+                            lhs: Box::new(atom_f(&input)),
+                            rhs: Box::new(atom_f(&input)),
+                        }),
+                    )));
+                }
                 task.user_guide.entries.push(fol::UserGuideEntry::AnnotatedFormula(gt::annotated(
                     fol::Role::Assumption,
                     fol::Direction::Universal,
